@@ -228,6 +228,24 @@ theorem fold_single_dels (i : Nat) (ks : List Nat) : ∀ g : GCluster, AllInv g 
     rw [hp2, hp1]
     simp only [Cluster.run, List.foldl_append]
 
+/-- the per-pair SETs of a split MSET (repaired front end): every one is a recorded command -/
+theorem fold_single_sets (i : Nat) (kvs : List (Nat × Redis.BS)) : ∀ g : GCluster, AllInv g →
+    AllInv ((kvs.map (fun p => Cmd.set p.1 p.2 .always .none false)).foldl (fun g c' => g.clientOne i c') g) ∧
+    ∃ evs : List Ev,
+      ((kvs.map (fun p => Cmd.set p.1 p.2 .always .none false)).foldl (fun g c' => g.clientOne i c') g).proj
+        = g.proj.run evs := by
+  induction kvs with
+  | nil => intro g h; exact ⟨h, [], rfl⟩
+  | cons p kvs ih =>
+    intro g h
+    simp only [List.map_cons, List.foldl_cons]
+    have h1 := allinv_clientOne h i (.set p.1 p.2 .always .none false) (fun nd _ => by simp [unsupported, recorded])
+    obtain ⟨evs1, hp1⟩ := proj_clientOne g i (.set p.1 p.2 .always .none false) (fun nd _ ks' hc => by cases hc)
+    obtain ⟨h2, evs2, hp2⟩ := ih _ h1
+    refine ⟨h2, evs1 ++ evs2, ?_⟩
+    rw [hp2, hp1]
+    simp only [Cluster.run, List.foldl_append]
+
 /-- one supported step of the glue cluster keeps every node's invariant and is a (possibly
     empty) sequence of steps of the layer-1 cluster -/
 theorem step_ok {g : GCluster} (h : AllInv g) (e : GEv) (hs : gunsupported g e = none) :
@@ -268,45 +286,12 @@ theorem step_ok {g : GCluster} (h : AllInv g) (e : GEv) (hs : gunsupported g e =
         exact fold_single_dels i ks g h
       · simp only [hl, if_false, List.foldl_cons, List.foldl_nil]
         exact hone (.del ks) rfl (fun ks' hk => by cases hk; exact hl)
+    | mset kvs =>
+      simp only [GCluster.step, splitCmd]
+      exact fold_single_sets i kvs g h
     | _ =>
       simp only [GCluster.step, splitCmd, List.foldl_cons, List.foldl_nil]
       exact hone _ rfl (fun ks hk => by cases hk)
-
-/-- the per-pair SETs of a split MSET (repaired front end): every one is a recorded command -/
-theorem fold_single_sets (i : Nat) (kvs : List (Nat × Redis.BS)) : ∀ g : GCluster, AllInv g →
-    AllInv ((kvs.map (fun p => Cmd.set p.1 p.2 .always .none false)).foldl (fun g c' => g.clientOne i c') g) ∧
-    ∃ evs : List Ev,
-      ((kvs.map (fun p => Cmd.set p.1 p.2 .always .none false)).foldl (fun g c' => g.clientOne i c') g).proj
-        = g.proj.run evs := by
-  induction kvs with
-  | nil => intro g h; exact ⟨h, [], rfl⟩
-  | cons p kvs ih =>
-    intro g h
-    simp only [List.map_cons, List.foldl_cons]
-    have h1 := allinv_clientOne h i (.set p.1 p.2 .always .none false) (fun nd _ => by simp [unsupported, recorded])
-    obtain ⟨evs1, hp1⟩ := proj_clientOne g i (.set p.1 p.2 .always .none false) (fun nd _ ks' hc => by cases hc)
-    obtain ⟨h2, evs2, hp2⟩ := ih _ h1
-    refine ⟨h2, evs1 ++ evs2, ?_⟩
-    rw [hp2, hp1]
-    simp only [Cluster.run, List.foldl_append]
-
-/-- one step of the REPAIRED front end: an MSET is always inside the fragment (its SETs are
-    recorded commands); every other event as `step_ok` -/
-theorem step_fixed_ok {g : GCluster} (h : AllInv g) (e : GEv)
-    (hs : (∀ i kvs, e ≠ .client i (.mset kvs)) → gunsupported g e = none) :
-    AllInv (g.stepFixed e) ∧ ∃ evs : List Ev, (g.stepFixed e).proj = g.proj.run evs := by
-  cases e with
-  | deliver j idx =>
-    have := step_ok h (.deliver j idx) (hs (fun _ _ hc => by cases hc))
-    simpa [GCluster.stepFixed] using this
-  | client i c =>
-    cases c with
-    | mset kvs =>
-      simp only [GCluster.stepFixed, splitCmdFixed]
-      exact fold_single_sets i kvs g h
-    | _ =>
-      have := step_ok h (.client i _) (hs (fun _ _ hc => by cases hc))
-      simpa [GCluster.stepFixed, splitCmdFixed, GCluster.step] using this
 
 /-- a restarted actor satisfies the node invariant (it serves nothing and knows nothing), and the
     replication-state layer of the restarted cluster is the layer-1 restart -/
